@@ -1971,6 +1971,19 @@ DLLIMPORT int cfg_parse_buf(cfg_t *cfg, const char *buf)
 	return ret;
 }
 
+/* The title and name comparisons of the option-level functions look at the
+ * option's own CFGF_NOCASE: in a case-insensitive context every option, and
+ * every section template below it, carries the flag. */
+static void cfg_opts_set_nocase(cfg_opt_t *opts)
+{
+	int i;
+
+	for (i = 0; opts && opts[i].name; i++) {
+		opts[i].flags |= CFGF_NOCASE;
+		cfg_opts_set_nocase(opts[i].subopts);
+	}
+}
+
 DLLIMPORT cfg_t *cfg_init(cfg_opt_t *opts, cfg_flag_t flags)
 {
 	cfg_t *cfg;
@@ -1996,6 +2009,8 @@ DLLIMPORT cfg_t *cfg_init(cfg_opt_t *opts, cfg_flag_t flags)
 	cfg->filename = NULL;
 	cfg->line = 0;
 	cfg->errfunc = NULL;
+	if (is_set(CFGF_NOCASE, flags))
+		cfg_opts_set_nocase(cfg->opts);
 
 #if defined(ENABLE_NLS) && defined(HAVE_GETTEXT)
 	bindtextdomain(PACKAGE, LOCALEDIR);
